@@ -206,20 +206,28 @@ func genSDText(c *reg.Ctx) ui.Text {
 	return ui.Concat(parts...)
 }
 
+// sdTextClass: all applicable input classes joined by "|" (each predicate is
+// evaluated on the input independently).
 func sdTextClass(t ui.Text) string {
+	classes := []string{"styledown-roundtrip"}
+	zero, styledNL := false, false
 	for _, seg := range t {
 		for _, r := range seg.Text {
 			if r != '\n' && wcwidth.OfRune(r) == 0 {
-				return "styledown-zero-width-char"
+				zero = true
 			}
 		}
-	}
-	for _, seg := range t {
 		if seg.Style != (ui.Style{}) && strings.Contains(seg.Text, "\n") {
-			return "styledown-styled-newline"
+			styledNL = true
 		}
 	}
-	return "styledown-roundtrip"
+	if zero {
+		classes = append(classes, "styledown-zero-width-char")
+	}
+	if styledNL {
+		classes = append(classes, "styledown-styled-newline")
+	}
+	return strings.Join(classes, "|")
 }
 
 func sdRound(c *reg.Ctx, t ui.Text, defs string) {
